@@ -449,11 +449,27 @@ def changeset(obj):
 
 
 
+def version_table_column(table, column):
+    """
+    Return the column of given version table that reflects given column of
+    the parent table. The keys of a version table's columns are the attribute
+    names of the model (see TableBuilder.reflect_column), so for a column
+    whose attribute is named differently (id = Column('_id')) only the name
+    identifies it.
+
+    :param table: version table
+    :param column: column of the parent table
+    """
+    for version_column in table.c:
+        if version_column.name == column.name:
+            return version_column
+
+
 class VersioningClauseAdapter(sa.sql.visitors.ReplacingCloningVisitor):
     def replace(self, col):
         if isinstance(col, sa.Column):
             table = version_table(col.table)
-            return table.c.get(col.key)
+            return version_table_column(table, col)
 
 
 def adapt_columns(expr):
